@@ -259,7 +259,9 @@ func fillAllTransitions(forward *NFA, builder *Builder, reverseEdges map[StateID
 		edges := reverseEdges[fwdID]
 
 		if isStart && hasIncoming {
-			fillStartStateWithIncoming(builder, revID, edges, revStateMap, matchID)
+			// Byte labels matter for the anchored start only: the byte edge into the
+			// unanchored start is the (?s:.)*? search prefix, not part of the pattern.
+			fillStartStateWithIncoming(builder, revID, edges, revStateMap, matchID, fwdID == fwdAnchored)
 		} else {
 			fillReverseState(builder, revID, edges, revStateMap)
 		}
@@ -402,15 +404,24 @@ func fillReverseState(builder *Builder, revID StateID, edges []reverseEdge, revS
 
 // fillStartStateWithIncoming handles forward start states that have incoming edges (loops)
 // The proxy state is already an epsilon -> match, but we need to add the loop transitions
-func fillStartStateWithIncoming(builder *Builder, proxyID StateID, edges []reverseEdge, revStateMap map[StateID]StateID, matchID StateID) {
+func fillStartStateWithIncoming(builder *Builder, proxyID StateID, edges []reverseEdge, revStateMap map[StateID]StateID, matchID StateID, keepLabels bool) {
 	// The proxy is currently epsilon -> match
 	// If we have incoming edges (from loops), we need to create a split:
 	// proxyID: split -> (transitions from incoming edges), match
 
-	// Collect targets from incoming edges
+	// Collect targets from incoming edges. An incoming byte transition
+	// (x*y: the x of the loop leads straight back to the start split) must
+	// keep its label: reversed, the start state reads that byte on the way to
+	// the edge's source. Only epsilon edges can be followed directly.
 	var loopTargets []StateID
 	for _, edge := range edges {
-		if revTarget, ok := revStateMap[edge.from]; ok {
+		revTarget, ok := revStateMap[edge.from]
+		if !ok {
+			continue
+		}
+		if keepLabels && (edge.kind == edgeByteRange || edge.kind == edgeSparse) {
+			loopTargets = append(loopTargets, builder.AddByteRange(edge.lo, edge.hi, revTarget))
+		} else {
 			loopTargets = append(loopTargets, revTarget)
 		}
 	}
